@@ -58,6 +58,26 @@ static std::string parse_flat(std::string const &schema, std::string const &conf
     } else if (kind == "I") {
       int v = 0;
       if (p.get_keyval(conf, key.c_str(), v, 0, m)) out = cvm::to_str(v);
+    } else if (kind == "U") {
+      size_t v = 0;
+      if (p.get_keyval(conf, key.c_str(), v, (size_t) 0, m)) out = cvm::to_str(v);
+    } else if (kind == "L") {
+      long v = 0;
+      if (p.get_keyval(conf, key.c_str(), v, 0L, m)) out = cvm::to_str(v);
+    } else if (kind == "J") {
+      std::vector<int> v;
+      if (p.get_keyval(conf, key.c_str(), v, std::vector<int>(), m)) {
+        out = "[";
+        for (size_t i = 0; i < v.size(); i++) out += (i ? ";" : "") + cvm::to_str(v[i]);
+        out += "]";
+      }
+    } else if (kind == "W") {
+      std::vector<std::string> v;
+      if (p.get_keyval(conf, key.c_str(), v, std::vector<std::string>(), m)) {
+        out = "[";
+        for (size_t i = 0; i < v.size(); i++) out += (i ? ";" : "") + hex(v[i]);
+        out += "]";
+      }
     } else if (kind == "B") {
       bool v = false;
       if (p.get_keyval(conf, key.c_str(), v, false, m)) out = v ? "1" : "0";
